@@ -64,6 +64,11 @@ def run(tier, seed):
     run.add_sample({"recipe": recipes[0], "event": traces[0][0]})
     run.add_sample({"recipe": recipes[5], "event": traces[5][0]})
     run.validate("typing-fuzz", "Trace_Typing", traces, recipes, sigfn=tc.typing_sig, describe=tc.typing_describe)
+    # generic history fuzzer: records edited in place and wrapped again while the earlier wrappers are alive
+    from .. import scenario
+    sc = scenario.run(rng, 25 if q else 250)
+    run.validate("scenario-typing", "Trace_Typing", sc["typing"], None, sigfn=lambda c, ev, tr: c + "|history",
+                 describe=lambda c, ev, tr: "%s: after a history on live objects, %s" % (c, tc.typing_describe(c, ev, tr)))
     try:
         from . import asm_common
         asm_common.fuzz_assemblies(run)
